@@ -134,6 +134,21 @@ theorem walk_folderAlias (n : Bytes) (p : List Bytes) : (Node.folderAlias n).wal
   simp [Node.folderAlias, walk_dir, sortBy]
 
 
+/-- An alias whose target is gone.  Nothing can be stat'ed through it: the file wrapper yields an empty data
+    fork, zero dates and the default type / creator ("TEXT" / "TTXT"), no side files; the walk lstat's the link
+    itself, so it is a file entry, and the download handler sends it as the empty file it announced. -/
+def danglingFile (name : Bytes) : StoredFile :=
+  { name := name, data := [], mtime := List.replicate 8 0, ty := [0x54, 0x45, 0x58, 0x54], creator := [0x54, 0x54, 0x58, 0x54] }
+
+def Node.danglingAlias (name : Bytes) : Node := .file (danglingFile name)
+
+theorem danglingFile_WF (n : Bytes) (h : n.length < 65536) : (danglingFile n).WF := by
+  refine ⟨?_, ?_, ?_, ?_⟩
+  · simp [danglingFile, StoredFile.effInfo, defaultInfo, InfoFork.fixedWF]
+  · simpa [danglingFile, StoredFile.effInfo, defaultInfo] using h
+  · simp [danglingFile, StoredFile.effInfo, defaultInfo]
+  · simp [danglingFile, StoredFile.rsrcSize, StoredFile.hdrLen, StoredFile.effInfo, defaultInfo, InfoFork.size]; omega
+
 mutual
 /-- Plain preorder traversal in stored order: visits every node exactly once by construction. -/
 def Node.preorder : Node → List Bytes → List Entry
